@@ -256,4 +256,5 @@ def targets(ctx):
     strat = st.tuples(st.lists(st.one_of(item(), item(), item(), item(), item(), big_item), min_size=0, max_size=6),
                       st.sampled_from([None, None, "only_read", 8, 16, 64, 4096])).map(
         lambda t: {"msgs": t[0], **({"only_read": True} if t[1] == "only_read" else ({"buffered": t[1]} if t[1] else {}))})
-    return [Target("delimited_streams_all_cuts", ev, poison=_poison_fn, strategy=strat, quick=120, thorough=1500, time_quick=80)]
+    return [__import__("vf.props._prog", fromlist=["target"]).target("C10", c, quick=200),
+            Target("delimited_streams_all_cuts", ev, poison=_poison_fn, strategy=strat, quick=120, thorough=1500, time_quick=80)]
